@@ -110,6 +110,12 @@ func (c *Chan[T]) Close() {
 		panic(plainError("close of closed channel"))
 	}
 	c.core.closed = true
+	// A second point after the close has taken effect: what the closing goroutine does next (e.g. storing a
+	// result that the receiver of the close reads without further synchronisation) may be overtaken by the
+	// goroutines the close released. Without it the block "close; plain writes" would be atomic and such a
+	// publish-after-release ordering mistake would be invisible to the explorer (it is a data race, which the
+	// free-running -race companion reports, but here it becomes a schedule with an observable wrong outcome).
+	s.park(&op{kind: opYield, what: fmt.Sprintf("after-close c%d", c.core.id)})
 }
 
 // Len is len(c).
